@@ -56,7 +56,7 @@ def value_class(v: Dict[str, Any]) -> str:
     if k == "int":
         return "int:" + ("negative" if v["tok"].startswith("-") else "large" if len(v["tok"]) > 9 else "small")
     if k == "float":
-        return "float:" + ("non_finite" if v["tok"] in ("inf", "-inf", "nan") else "negative" if v["tok"].startswith("-") else "finite")
+        return "float:" + ("non_finite" if v["tok"] in ("inf", "-inf", "nan") else "negative" if v["tok"].startswith("-") else "integer_literal" if v["tok"].isdigit() else "finite")
     if k == "bytes":
         return "bytes"
     return k
